@@ -393,6 +393,80 @@ def clause_e(facts, rep):
     rep.require(n >= 6, 'C13.e: owning-field obligations: %d' % n)
 
 
+def clause_f(facts, rep):
+    """Ownership transfers are complete.  Owning fields of GenericDocument = the raw-pointer fields some member
+    function hands to Allocator::Free (derived from the code, today str_ and schema_str_).  Swap must exchange
+    every one of them together with the nodes that point into them; the move constructor / move assignment must
+    take every one of them from the source and leave the source without it."""
+    gd = [f for f in facts.functions if f.cls_qn == GD and is_s(f)]
+    own = set()
+    for f in gd:
+        for bid, i, s, e in f.walk():
+            if e.get('k') == 'call' and e.get('cname') == 'Free':
+                for x in walk(e):
+                    if x.get('k') == 'member' and is_this_member(x):
+                        own.add(x['name'])
+    rep.require(len(own) >= 2, 'C13.f: owning fields of GenericDocument (freed somewhere): %s' % sorted(own))
+    n = 0
+
+    def rhs_member(x, pid, name):
+        x = strip(x)
+        if x is None or x.get('k') != 'member' or x.get('name') != name:
+            return False
+        b = strip(x.get('base'))
+        return b is not None and b.get('k') == 'ref' and b.get('id') == pid
+
+    def nulled_by(fn, pid):
+        """fields of the parameter object that fn leaves null: direct `p.F = nullptr` or a call p.g() of a member g that assigns F = nullptr"""
+        out = set()
+        for bid, i, s, e in fn.walk():
+            if e.get('k') == 'bin' and e['op'] == '=' and cval(e['r']) == 0:
+                l = strip(e['l'])
+                if l is not None and l.get('k') == 'member':
+                    b = strip(l.get('base'))
+                    if b is not None and b.get('k') == 'ref' and b.get('id') == pid:
+                        out.add(l['name'])
+            if e.get('k') == 'call' and e.get('obj') is not None:
+                o = strip(e['obj'])
+                g = facts.by_id.get(e.get('cid'))
+                if o is not None and o.get('k') == 'ref' and o.get('id') == pid and g is not None and g.cls_qn == GD:
+                    for _, _, _, y in g.walk():
+                        if y.get('k') == 'bin' and y['op'] == '=' and cval(y['r']) == 0 and is_this_member(strip(y['l'])):
+                            out.add(strip(y['l'])['name'])
+        return out
+    for f in gd:
+        same = [p for p in f.params if 'GenericDocument' in (p.get('t') or '')]
+        if f.short == 'Swap' and same:
+            rep.fn(f)
+            pid = same[0]['id']
+            for F in sorted(own):
+                n += 1
+                ok = any(e.get('k') == 'call' and e.get('cname') == 'swap' and len(e.get('args', [])) == 2 and
+                         ((is_this_member(strip(e['args'][0]), F) and rhs_member(e['args'][1], pid, F)) or (is_this_member(strip(e['args'][1]), F) and rhs_member(e['args'][0], pid, F)))
+                         for _, _, _, e in f.walk())
+                rep.check(ok, 'E8.transfer-complete', f.qn, 'Swap exchanges owning field %s' % F, f.loc,
+                          'the nodes move to the other document, so the buffer they point into must move with them (otherwise it is freed by the wrong owner while still referenced)', facts.config)
+        is_move = same and '&&' in (same[0].get('t') or '')
+        if is_move and f.short in ('GenericDocument', 'operator='):
+            rep.fn(f)
+            pid = same[0]['id']
+            nulled = nulled_by(f, pid)
+            for F in sorted(own):
+                n += 1
+                took = False
+                for bid, i, s in f.stmts():
+                    s_ = strip(s)
+                    if s_ is None:
+                        continue
+                    if s_.get('k') == 'init' and s_.get('name', s_.get('field')) == F and any(rhs_member(x, pid, F) for x in walk(s_) if x.get('k') == 'member'):
+                        took = True
+                    if s_.get('k') == 'bin' and s_['op'] == '=' and is_this_member(strip(s_['l']), F) and rhs_member(s_['r'], pid, F):
+                        took = True
+                rep.check(took and F in nulled, 'E8.transfer-complete', f.qn, '%s takes %s from the source and leaves the source without it' % ('move constructor' if f.short != 'operator=' else 'move assignment', F), f.loc,
+                          'took=%s, source fields nulled=%s' % (took, sorted(nulled)), facts.config)
+    rep.require(n >= 6, 'C13.f: transfer obligations found: %d' % n)
+
+
 def run(rep, tier):
     configs = ['K1'] if tier == 'quick' else ['K1', 'K3']
     for cfg in configs:
@@ -403,8 +477,9 @@ def run(rep, tier):
         clause_c(facts, rep)
         clause_d(facts, rep)
         clause_e(facts, rep)
+        clause_f(facts, rep)
     rep.trust('clang 14 front end', 'clang -verify for the compile-fail witnesses', 'libc realloc/free')
     rep.assumptions += [
-        'decides type-level copy prohibition, raw-move pairing, destroy-before-overwrite with provenance, the arms of destroy() and the discipline of owning raw-pointer fields (freeing-allocator instantiations)',
+        'decides type-level copy prohibition, raw-move pairing, destroy-before-overwrite with provenance, the arms of destroy() the discipline of owning raw-pointer fields and the completeness of Swap / move transfers of the document buffers (freeing-allocator instantiations)',
         'does NOT decide exactly-once over arbitrary histories (a dynamic ledger property) nor independence of copies beyond the type-level and string-arm facts',
     ]
